@@ -4,8 +4,10 @@
 (* Two independent parts run in the same model:                               *)
 (*   part "fl"/"cc"/"sf": a parameter struct is assembled field by field; on  *)
 (*        the complete struct the invariant ParamOK must hold;                *)
-(*   part "app": a stream dictionary receives up to MaxAppends appendFilter   *)
-(*        calls; RefChain of the dictionary must equal the chain appended.    *)
+(*   part "app": a stream dictionary receives up to MaxAppends insertFilter   *)
+(*        calls (as OpenStream makes them: the i-th filter at position i, in  *)
+(*        front of the caller's chain); RefChain of the dictionary must equal *)
+(*        the chain so built.                                                 *)
 EXTENDS FilterParams
 
 CONSTANTS PredSet, ColorSet, BpcSet, ColSet, VerSet,       \* Flate / LZW / Compress
@@ -48,22 +50,21 @@ AppFilters == { <<"ASCII85Decode", Empty>>, <<"FlateDecode", Empty>>,
                 <<"LZWDecode", "EarlyChange" :> I(0)>>,
                 <<"FlateDecode", ("Predictor" :> I(12)) @@ ("Columns" :> I(4))>> }
 \* dictionaries the caller may pass to OpenStream (nil, or an existing
-\* well-formed chain).  An *empty* /DecodeParms dictionary next to a /Filter
-\* name is left out: appendFilter keeps it in place when the chain becomes an
-\* array, which GetFilters then refuses; the property does not speak about
-\* caller-supplied dictionaries.
+\* well-formed chain, also with an empty /DecodeParms dictionary)
 Seeds == { [F |-> None, P |-> None],
            [F |-> Nm("ASCIIHexDecode"), P |-> None],
+           [F |-> Nm("ASCIIHexDecode"), P |-> Dv(Empty)],
            [F |-> Nm("LZWDecode"), P |-> Dv("EarlyChange" :> I(0))],
            [F |-> Av(<<Nm("ASCIIHexDecode"), Nm("LZWDecode")>>), P |-> None],
            [F |-> Av(<<Nm("ASCIIHexDecode"), Nm("LZWDecode")>>), P |-> Av(<<Null, Dv("EarlyChange" :> I(0))>>)] }
 
-BrokenAppend(sd, name, parms) ==
-  \* the defect "parameters of a later filter are attached to the first one"
-  IF sd.F.t = "name" /\ parms # Empty /\ sd.P.t # "dict"
-  THEN [F |-> Av(<<sd.F, Nm(name)>>), P |-> Av(<<Dv(parms), Null>>)]
-  ELSE ImplAppend(sd, name, parms)
-DoAppend(sd, name, parms) == IF BREAK = "append" THEN BrokenAppend(sd, name, parms) ELSE ImplAppend(sd, name, parms)
+BrokenInsert(sd, pos, name, parms) ==
+  \* the defect "the name goes in front, its parameters to the end"
+  LET good == ImplInsert(sd, pos, name, parms) IN
+  IF good.P.t = "array" /\ Len(good.P.v) >= 2 /\ parms # Empty
+  THEN [good EXCEPT !.P = Av(Append(SubSeq(good.P.v, 2, Len(good.P.v)), good.P.v[1]))]
+  ELSE good
+DoInsert(sd, pos, name, parms) == IF BREAK = "append" THEN BrokenInsert(sd, pos, name, parms) ELSE ImplInsert(sd, pos, name, parms)
 
 Init == st = [part |-> "start"]
 
@@ -98,10 +99,11 @@ StartSF == /\ st.part = "start"
 
 StartApp == /\ st.part = "start"
             /\ \E sd \in Seeds : st' = [part |-> "app", n |-> 0, sd |-> sd, chain |-> RefChain(sd)]
+\* OpenStream's next filter (the st.n-th, counted from 0) goes to position st.n
 AppendOne == /\ st.part = "app" /\ st.n < MaxAppends
              /\ \E f \in AppFilters :
-                  st' = [st EXCEPT !.n = @ + 1, !.sd = DoAppend(st.sd, f[1], f[2]),
-                                   !.chain = Append(@, f)]
+                  st' = [st EXCEPT !.n = @ + 1, !.sd = DoInsert(st.sd, st.n, f[1], f[2]),
+                                   !.chain = InsertAt(@, st.n + 1, f)]
 
 Next == \/ StartFL \/ SetPred \/ SetColors \/ SetBpc \/ SetCols
         \/ StartCC \/ SetBools \/ SetCCols \/ SetRows \/ SetDmg
